@@ -8,6 +8,8 @@ N_SLOTS = 1792
 ALL5 = ['py', 'pyfast', 'c', 'pycmio', 'ccmio']
 
 TARGETS = gen_prog.BOUNDARY_ADDRS
+B16 = (0x0000, 0x0001, 0x7FFF, 0x8000, 0xFFFF, 0xFFFE, 0x8001, 0x7FFE, 0x0FFF, 0x1000, 0xF000, 0x00FF, 0x0100, 0x7F00, 0x80FF, 0x0800, 0xF7FF)
+BF = (0x00, 0x01, 0xFF, 0x10, 0x11, 0x02, 0x03, 0x12, 0x13, 0x40, 0x80, 0x04, 0xD7, 0xD6)
 
 def pick_ptr(rng):
     r = rng.random()
@@ -50,8 +52,14 @@ def gen_regs30(rng, machine, pc):
     regs = [0] * 30
     for i in list(range(0, 12)) + list(range(16, 24)):
         regs[i] = rng.choice((0, 0xFF, 0x80, 0x7F, 0x0F, 0x10, rng.randrange(256), rng.randrange(256), rng.randrange(256)))
+    if rng.random() < 0.5:
+        regs[1] = rng.choice(BF)
     for hi in (2, 4, 6, 8, 10):
-        if rng.random() < 0.6:
+        r = rng.random()
+        if r < 0.25:
+            v = rng.choice(B16)          # 16-bit arithmetic boundaries
+            regs[hi], regs[hi + 1] = v >> 8, v & 0xFF
+        elif r < 0.7:
             v = pick_ptr(rng)
             if hi >= 8 and rng.random() < 0.7:
                 v = (v - rng.choice((0, 1, -1, 127, -128, rng.randrange(-128, 128)))) & 0xFFFF
